@@ -86,6 +86,7 @@ type session struct {
 	Slice     *Slicer
 	SC        *scriptSC
 	Ck        []byte // serialized checkpoint to resume from (nil: from the start)
+	Whitelist map[int64]bool
 	b         bowl.Bowl
 	ResumeErr error
 	Panic     string
@@ -128,6 +129,9 @@ func (se *session) run() {
 		}
 		if se.SC != nil {
 			p.SetSaveConsumer(se.SC)
+		}
+		if se.Whitelist != nil {
+			p.SetSourceIndexWhitelist(se.Whitelist)
 		}
 		se.Stage = "resume"
 		se.ResumeErr = p.Resume(c, targetPool, b)
@@ -262,11 +266,24 @@ func TestC03(t *testing.T) {
 			}
 			return (call/pk)%2 == 0 // bursts
 		}
+		// partial application (whitelist) combined with checkpoints: fresh bowl only; the reference is
+		// the uninterrupted partial application
+		var whitelist map[int64]bool
+		if !overlay && rapid.IntRange(0, 3).Draw(rt, "usewhitelist") == 0 {
+			whitelist = map[int64]bool{}
+			n := len(pair.New.Files())
+			for i := 0; i < n; i++ {
+				if rapid.Bool().Draw(rt, "wl") {
+					whitelist[int64(i)] = true
+				}
+			}
+			Ev.Probe("whitelist_combined_with_checkpoints")
+		}
 		crashSeed := rapid.Uint64().Draw(rt, "crashseed")
 		rng := NewRng(crashSeed)
 		slice := drawSlicer(rt, "patchslice")
 		bowlName := map[bool]string{false: "fresh", true: "overlay"}[overlay]
-		cfg := fmt.Sprintf("patch %s, bowl %s, save pattern %d/%d", desc, bowlName, pattern, pk)
+		cfg := fmt.Sprintf("patch %s, bowl %s, save pattern %d/%d, whitelist %v", desc, bowlName, pattern, pk, whitelist != nil)
 
 		seq := 0
 		mkdirs := func() (out, stage string) {
@@ -287,7 +304,7 @@ func TestC03(t *testing.T) {
 
 		// reference run R
 		rout, rstage := mkdirs()
-		ref := &session{Patch: patch, OldDir: oldDir, OutDir: rout, StageDir: rstage, Overlay: overlay}
+		ref := &session{Patch: patch, OldDir: oldDir, OutDir: rout, StageDir: rstage, Overlay: overlay, Whitelist: whitelist}
 		ref.run()
 		if ref.Panic != "" || ref.ResumeErr != nil {
 			Violation(rt, "C03/reference-run", "uninterrupted apply failed at %s: %v %s (%s)", ref.Stage, ref.ResumeErr, ref.Panic, cfg)
@@ -298,7 +315,7 @@ func TestC03(t *testing.T) {
 			return
 		}
 		tref := MustSnapshot(rout).Tree
-		if d := pair.New.Diff(tref); d != "" {
+		if d := pair.New.Diff(tref); d != "" && whitelist == nil {
 			Violation(rt, "C03/reference-run", "uninterrupted apply differs from the new build: %s (%s)", d, cfg)
 			return
 		}
@@ -306,7 +323,7 @@ func TestC03(t *testing.T) {
 		// instrumented run B: collect every checkpoint with its disk state
 		bout, bstage := mkdirs()
 		sc := &scriptSC{Should: should, StopAt: -1, DiskDir: diskDir(bout, bstage)}
-		b := &session{Patch: patch, OldDir: oldDir, OutDir: bout, StageDir: bstage, Overlay: overlay, Slice: slice, SC: sc}
+		b := &session{Patch: patch, OldDir: oldDir, OutDir: bout, StageDir: bstage, Overlay: overlay, Slice: slice, SC: sc, Whitelist: whitelist}
 		b.run()
 		if b.Panic != "" || b.ResumeErr != nil {
 			Violation(rt, "C03/saving-run", "apply with a saving consumer failed at %s: %v %s (%s)", b.Stage, b.ResumeErr, b.Panic, cfg)
@@ -377,7 +394,7 @@ func TestC03(t *testing.T) {
 					stop = rng.Intn(4)
 				}
 				sc2 := &scriptSC{Should: should, StopAt: stop, DiskDir: diskDir(out, stage)}
-				se := &session{Patch: patch, OldDir: oldDir, OutDir: out, StageDir: stage, Overlay: overlay, Slice: NewSlicer(int(crashSeed%4), crashSeed+uint64(k)), SC: sc2, Ck: curCk}
+				se := &session{Patch: patch, OldDir: oldDir, OutDir: out, StageDir: stage, Overlay: overlay, Slice: NewSlicer(int(crashSeed%4), crashSeed+uint64(k)), SC: sc2, Ck: curCk, Whitelist: whitelist}
 				se.run()
 				restarts++
 				Ev.Fault("crash_restart", 1)
